@@ -51,6 +51,11 @@ func (c *Encoder) encodeCallStatement(stmt *ast.CallStatement) *Frame {
 	w.Reset()
 
 	w.Write(c.encodeIdent(stmt.Subroutine).Encode())
+	// Arguments follow the name as expression frames; the next statement,
+	// END or FIN frame terminates the list.
+	for _, arg := range stmt.Arguments {
+		w.Write(c.encodeExpression(arg).Encode())
+	}
 
 	return &Frame{
 		frameType: CALL_STATEMENT,
